@@ -266,8 +266,11 @@ class Executor:
 
         # If we get here, no relevant inputs have changed,
         # so we can make the step pending again, to be re-queued when new inputs arrive.
+        # The step is deferred: without the flag it would still satisfy the dispatch conditions
+        # and the same validation job would be handed out again at once, for ever.
+        # `Workflow.mark_step_pending` clears the flag when an input of the step changes.
         async with self.db:
-            step.set_state(StepState.PENDING)
+            step.set_state(StepState.PENDING, True)
         self._report_step_counts()
 
     async def try_skip_job(
